@@ -32,7 +32,7 @@ ASSUMPTIONS = [
 OPEN_STATEMENTS = [
     'hubbard_sound (operator-level: the Model output of fermi_hubbard / bose_hubbard / mean_field_dwave / FermiHubbardModel denotes the docstring formula for ALL sizes) is not a theorem: covered by the docstring / spec.eq oracles on the explored lattices; proved for all sizes: the bond enumerations equal the Spec edge set (bonds_spec, dwave_bonds_spec, lattice_neighbors_spec, diagonal_neighbors_spec, neighbors_ordered_perm, diagonal_ordered_perm, hubbard_generators_agree_bonds), every generated term has zero charge for N (and S_z where the model conserves it) and zero-charge terms preserve the Spec weight of basis states (term_charge_sound), the grid index bijection',
     'hermitian_generators is covered by the spec.eq oracle only',
-    'horizontal_neighbor / vertical_neighbor edge types separately (Spec adjH / adjV) and the onsite edge type: correspondence + Spec oracle only; the theorem is stated for their union (neighbor)',
+    'onsite edge type and spin_pairs_iter: correspondence + Spec oracle only',
     'bose_hubbard / mean_field_dwave / FermiHubbardModel: S_z conservation of FermiHubbardModel is covered by the spec.eq oracle only',
     'su2_relations for all n: oracle only (n <= 3)',
     'fourier_transform_unitary_structure / isospectrality: numeric oracle only',
